@@ -33,6 +33,26 @@ CHECKS = {
     ref='6/C20',
     technique='Coq proof over the model of checks.py + extracted-model '
               'differential check + reference oracle + shell runs'),
+ 'C14': dict(
+    text='complete on the model of the position arithmetic: exactness of the '
+         'position mapping on a copied word, line/column characterisation, '
+         'agreement of the text/JSON/XML(-b) numbers, offset shift of '
+         'assembled parts, ordering (permutation, sorted, stable), locations '
+         'inside the file; the HTML highlight and the command-line assembly '
+         'for the proofreader are covered by the differential run only',
+    ref='6/C14',
+    technique='Coq proof over the model of shell/utils.py, proofreader.py, '
+              'gen*.py arithmetic + differential run of the real shell (6 '
+              'modes, fake proofreader) + marker-word oracle'),
+ 'C15': dict(
+    text='complete on the model: for every decoded answer (any JSON value or '
+         'a decoding failure), mode and text the pipeline ends in a report or '
+         'the fatal exit, never a Python exception, and reported locations '
+         'lie inside the file; UTF-8/JSON decoding itself is an oracle '
+         '(CPython) and output encoding is outside the model',
+    ref='6/C15',
+    technique='Coq proof (case analysis over typed accessors, clamping) + '
+              'exhaustive single-fault enumeration against the real shell'),
 }
 
 NOT_YET = {}
